@@ -196,6 +196,10 @@ class Ext:
             return VBool(sym.py_eq(ex.box(a), ex.box(b)))
         if isinstance(a, VRec) and isinstance(b, VRec):
             return VBool(self.is_(ex, a, b))
+        if (isinstance(a, VCls) and a.py is None and isinstance(b, VRec) and hasattr(b.model, "instancecheck")) or \
+                (isinstance(b, VCls) and b.py is None and isinstance(a, VRec) and hasattr(a.model, "instancecheck")):
+            # type(x) == <a class held as a record>: identity of the class objects
+            return VBool(ex.box(a) == ex.box(b))
         if isinstance(a, VExc) or isinstance(b, VExc):
             return VBool(a is b)
         # statically different kinds without numeric relation
@@ -746,6 +750,8 @@ class Ext:
             self.havoc_inplace(ex, obj, parts[0])
             return
         last = parts[-1]
+        if isinstance(obj, (VObj, VNone)):
+            return          # an object without tracked state: nothing the executor knows about it can change
         if isinstance(obj, VRec):
             cur = obj.fields.get(last)
             if isinstance(cur, (VSeq, VMap)):
